@@ -1,1 +1,343 @@
-From VRP Require Import Base.Tac Model.KMedoids.
+(* Proofs about Model/KMedoids.v: whatever the distance function, the rayon chunking and the hash order are,
+   create_kmedoids returns clusters in which every point is at least as close to its own medoid as to any other
+   cluster's medoid; when the medoid initialisation succeeds the clusters are a partition (as multisets) of the
+   points; the initialisation succeeds when k does not exceed the number of distinct points; the executable checker
+   decides the declarative contract. *)
+From Coq Require Import Permutation.
+From VRP Require Import Base.Tac Model.Lkh Model.KMedoids Proofs.LkhP Proofs.DbscanP.
+Local Open Scope nat_scope.
+
+Definition km_nearest (d : nat -> nat -> Z) (m : cmap) : Prop :=
+  forall med c p med' c', In (med, c) m -> In p c -> In (med', c') m -> (d p med <= d p med')%Z.
+Definition km_partition (data : list nat) (m : cmap) : Prop := Permutation (flat_map snd m) data.
+
+  Lemma min_by_spec key : forall l best,
+    let r := min_by key best l in
+    (key r <= key best)%Z /\ (forall x, In x l -> (key r <= key x)%Z) /\ (r = best \/ In r l).
+  Proof.
+    induction l as [|x l IH]; intros best; cbn [min_by].
+    - split; [lia|]. split; [intros x []|]. left. reflexivity.
+    - destruct (key x <? key best)%Z eqn:E.
+      + apply Z.ltb_lt in E. destruct (IH x) as [A [B C]]. split; [lia|]. split.
+        * intros y [<- | Hy]; [exact A | auto].
+        * right. destruct C as [-> | C]; [left; reflexivity | right; exact C].
+      + apply Z.ltb_ge in E. destruct (IH best) as [A [B C]]. split; [exact A|]. split.
+        * intros y [<- | Hy]; [lia | auto].
+        * destruct C as [C | C]; [left; exact C | right; right; exact C].
+  Qed.
+
+  Lemma argmin_spec key l r : argmin key l = Some r -> In r l /\ forall x, In x l -> (key r <= key x)%Z.
+  Proof.
+    destruct l as [|x l]; cbn [argmin]; [discriminate|]. intros H. inversion H; subst r.
+    destruct (min_by_spec key l x) as [A [B C]]. split.
+    - destruct C as [-> | C]; [left; reflexivity | right; exact C].
+    - intros y [<- | Hy]; [exact A | auto].
+  Qed.
+
+
+Section KMP.
+  Variable d : nat -> nat -> Z.
+  Variable chunks : list nat -> list (list nat).
+  Variable ord : list nat -> list nat.
+
+  Lemma argmin_some key l : l <> [] -> exists r, argmin key l = Some r.
+  Proof. destruct l; [congruence|]. intros _. eexists. reflexivity. Qed.
+
+  (* ---------------------------------------------------------------- assign *)
+  Definition assigned_ok (M : list nat) (m : cmap) : Prop :=
+    forall k c, In (k, c) m -> In k M /\ forall p, In p c -> nearest d p M = Some k.
+
+  Lemma cm_push_ok M k p m : nearest d p M = Some k -> assigned_ok M m -> assigned_ok M (cm_push k p m).
+  Proof.
+    intros Hn. induction m as [|[k' c'] r IH]; intros Hm k0 c0 H0; cbn [cm_push] in H0.
+    - destruct H0 as [H0 | []]. injection H0 as E1 E2. subst k0 c0. split.
+      + apply argmin_spec in Hn. exact (proj1 Hn).
+      + intros q [<- | []]. exact Hn.
+    - destruct (k' =? k) eqn:E.
+      + apply Nat.eqb_eq in E. subst k'. destruct H0 as [H0 | H0].
+        * injection H0 as E1 E2. subst k0 c0. destruct (Hm k c' (or_introl eq_refl)) as [A B]. split; [exact A|].
+          intros q Hq. apply in_app_or in Hq. destruct Hq as [Hq | [<- | []]]; auto.
+        * apply Hm. right. exact H0.
+      + destruct H0 as [H0 | H0]; [apply Hm; left; exact H0|].
+        apply IH; [|exact H0]. intros k1 c1 H1. apply Hm. right. exact H1.
+  Qed.
+
+  Lemma cm_push_perm k p : forall m, Permutation (flat_map snd (cm_push k p m)) (p :: flat_map snd m).
+  Proof.
+    induction m as [|[k' c'] r IH]; cbn [cm_push]; [cbn; apply Permutation_refl|].
+    destruct (k' =? k); cbn [flat_map snd].
+    - rewrite <- app_assoc. cbn [app]. apply Permutation_sym. apply Permutation_middle.
+    - eapply Permutation_trans; [apply Permutation_app_head; exact IH|].
+      apply Permutation_sym. apply Permutation_middle.
+  Qed.
+
+  Lemma assign_fold_ok M : forall data m,
+    assigned_ok M m ->
+    assigned_ok M (fold_left (fun m p => match nearest d p M with Some k => cm_push k p m | None => m end) data m).
+  Proof.
+    induction data as [|p data IH]; intros m Hm; cbn [fold_left]; [exact Hm|].
+    apply IH. destruct (nearest d p M) as [k|] eqn:E; [apply cm_push_ok; assumption | exact Hm].
+  Qed.
+
+  Lemma assign_fold_perm M : M <> [] -> forall data m,
+    Permutation (flat_map snd (fold_left (fun m p => match nearest d p M with Some k => cm_push k p m | None => m end) data m))
+                (flat_map snd m ++ data).
+  Proof.
+    intros HM. induction data as [|p data IH]; intros m; cbn [fold_left]; [rewrite app_nil_r; apply Permutation_refl|].
+    destruct (argmin_some (fun m0 => d p m0) M HM) as [k Hk]. change (nearest d p M = Some k) in Hk. rewrite Hk.
+    eapply Permutation_trans; [apply IH|].
+    eapply Permutation_trans; [apply Permutation_app_tail; apply cm_push_perm|].
+    cbn [app]. apply Permutation_middle.
+  Qed.
+
+  Theorem assign_nearest data M : km_nearest d (assign d data M).
+  Proof.
+    assert (H : assigned_ok M (assign d data M)) by (apply assign_fold_ok; intros k c []).
+    intros med c p med' c' H1 Hp H2.
+    destruct (H _ _ H1) as [_ B]. destruct (H _ _ H2) as [A' _].
+    specialize (B p Hp). apply argmin_spec in B. apply (proj2 B). exact A'.
+  Qed.
+
+  Theorem assign_partition data M : M <> [] -> km_partition data (assign d data M).
+  Proof. intros HM. unfold km_partition, assign. apply (assign_fold_perm M HM data []). Qed.
+
+  Lemma assign_keys data M k c : In (k, c) (assign d data M) -> In k M /\ c <> [].
+  Proof.
+    assert (G : forall dl m, (forall k c, In (k, c) m -> In k M /\ c <> []) ->
+                forall k c, In (k, c) (fold_left (fun m p => match nearest d p M with Some k => cm_push k p m | None => m end) dl m) ->
+                In k M /\ c <> []).
+    { clear k c. induction dl as [|p dl IH]; intros m Hm k c H; cbn [fold_left] in H; [auto|].
+      revert H. apply IH. destruct (nearest d p M) as [k0|] eqn:E; [|exact Hm].
+      apply argmin_spec in E. destruct E as [E _].
+      clear IH. induction m as [|[k' c'] r IHm]; intros k1 c1 H1; cbn [cm_push] in H1.
+      - destruct H1 as [H1 | []]. injection H1 as E1 E2. subst k1 c1. split; [exact E | discriminate].
+      - destruct (k' =? k0) eqn:Ek.
+        + destruct H1 as [H1 | H1]; [|apply Hm; right; exact H1]. injection H1 as E1 E2. subst k1 c1.
+          split; [apply (Hm k' c'); left; reflexivity | destruct c'; discriminate].
+        + destruct H1 as [H1 | H1]; [apply Hm; left; exact H1|].
+          apply IHm; [|exact H1]. intros k2 c2 H2. apply Hm. right. exact H2. }
+    apply G. intros k0 c0 [].
+  Qed.
+
+  (* ---------------------------------------------------------------- the iteration keeps the medoid vector non-empty *)
+  Hypothesis ord_perm : forall l, Permutation (ord l) l.
+
+  Lemma update_nonempty data M : data <> [] -> M <> [] -> update_medoids d ord (assign d data M) <> [].
+  Proof.
+    intros Hd HM Hu. unfold update_medoids in Hu.
+    pose proof (ord_perm (flat_map (fun kc => match argmin (fun p => sumd_to d p (snd kc)) (snd kc) with Some x => [x] | None => [] end)
+                                   (assign d data M))) as P.
+    rewrite Hu in P. apply Permutation_nil in P.
+    pose proof (assign_partition data M HM) as Q. unfold km_partition in Q.
+    destruct (assign d data M) as [|[k c] r] eqn:Ea.
+    - cbn in Q. apply Permutation_nil in Q. congruence.
+    - assert (Hc : c <> []) by (apply (assign_keys data M k c); rewrite Ea; left; reflexivity).
+      cbn [flat_map snd] in P. destruct (argmin_some (fun p => sumd_to d p c) c Hc) as [x Hx]. rewrite Hx in P. discriminate.
+  Qed.
+
+  Lemma iterate_nonempty data : data <> [] -> forall n M, M <> [] -> iterate d ord n data M <> [].
+  Proof.
+    intros Hd. induction n as [|n IH]; intros M HM; cbn [iterate]; [exact HM|].
+    destruct (KMedoids.list_eqb (update_medoids d ord (assign d data M)) M); [exact HM|].
+    apply IH. apply update_nonempty; assumption.
+  Qed.
+
+  Lemma more_medoids_nonempty : forall fuel k data M M', M <> [] -> more_medoids d chunks fuel k data M = Some M' -> M' <> [].
+  Proof.
+    induction fuel as [|f IH]; intros k data M M' HM H; cbn [more_medoids] in H; [inversion H; subst; exact HM|].
+    destruct (length M <? k); [|inversion H; subst; exact HM].
+    destruct (next_medoid d chunks data M) as [m|]; [|discriminate].
+    eapply IH; [|exact H]. destruct M; discriminate.
+  Qed.
+
+  Theorem create_kmedoids_nearest data k : km_nearest d (create_kmedoids d chunks ord data k).
+  Proof.
+    unfold create_kmedoids, calculate. destruct data as [|p0 data]; [intros ? ? ? ? ? []|].
+    destruct (initialize_medoids d chunks k (p0 :: data)); [apply assign_nearest | intros ? ? ? ? ? []].
+  Qed.
+
+  Theorem create_kmedoids_partition data k M :
+    initialize_medoids d chunks k data = Some M -> km_partition data (create_kmedoids d chunks ord data k).
+  Proof.
+    intros Hi. unfold create_kmedoids, calculate. destruct data as [|p0 data].
+    - cbn in Hi. discriminate.
+    - rewrite Hi. apply assign_partition. apply iterate_nonempty; [discriminate|].
+      unfold initialize_medoids in Hi. destruct (argmin _ (p0 :: data)) as [first|]; [|discriminate].
+      eapply more_medoids_nonempty; [|exact Hi]. discriminate.
+  Qed.
+End KMP.
+
+(* ------------------------------------------------------------------ the executable checker *)
+Lemma nearest_ok_iff d m : nearest_ok d m = true <-> km_nearest d m.
+Proof.
+  unfold nearest_ok, km_nearest. rewrite forallb_forall. split.
+  - intros H med c p med' c' H1 Hp H2. specialize (H _ H1). cbn [fst snd] in H.
+    rewrite forallb_forall in H. specialize (H p Hp). rewrite forallb_forall in H. specialize (H _ H2).
+    cbn [fst] in H. apply Z.leb_le. exact H.
+  - intros H [med c] H1. apply forallb_forall. intros p Hp. apply forallb_forall. intros [med' c'] H2.
+    cbn [fst snd] in *. apply Z.leb_le. eapply H; eauto.
+Qed.
+
+Theorem check_kmedoids_iff dm data m :
+  check_kmedoids dm data m = [] <-> km_partition data m /\ km_nearest (dmat dm) m.
+Proof.
+  unfold check_kmedoids, km_partition.
+  destruct (permb (flat_map snd m) data) eqn:E1.
+  - apply permb_iff in E1. destruct (nearest_ok (dmat dm) m) eqn:E2; cbn [app].
+    + apply nearest_ok_iff in E2. tauto.
+    + split; [discriminate|]. intros [_ H]. apply nearest_ok_iff in H. congruence.
+  - split; [destruct (nearest_ok (dmat dm) m); discriminate|]. intros [H _]. apply permb_iff in H. congruence.
+Qed.
+
+(* ------------------------------------------------------------------ the initialisation succeeds when k <= #distinct points *)
+Section Init.
+  Variable d : nat -> nat -> Z.
+  Variable chunks : list nat -> list (list nat).
+  Variable data : list nat.
+  Hypothesis chunks_ok : concat (chunks data) = data.
+
+  Lemma kmem_In x l : kmem x l = true <-> In x l.
+  Proof.
+    unfold kmem. rewrite existsb_exists. split.
+    - intros [y [Hy He]]. apply Nat.eqb_eq in He. subst. exact Hy.
+    - intros H. exists x. split; [exact H | apply Nat.eqb_refl].
+  Qed.
+
+  Definition fresh (M : list nat) (o : option (Z * nat)) : Prop :=
+    match o with None => True | Some (_, x) => In x data /\ ~ In x M end.
+
+  Lemma fold_nm_fresh M : forall ch acc, (forall x, In x ch -> In x data) -> fresh M acc ->
+    fresh M (fold_left (nm_fold d M) ch acc).
+  Proof.
+    induction ch as [|x ch IH]; intros acc Hch Ha; cbn [fold_left]; [exact Ha|].
+    apply IH; [intros y Hy; apply Hch; right; exact Hy|].
+    unfold nm_fold. destruct (kmem x M) eqn:E; [exact Ha|]. cbn [fresh]. split; [apply Hch; left; reflexivity|].
+    rewrite <- kmem_In. congruence.
+  Qed.
+
+  Lemma fold_nm_some M : forall ch acc, (acc <> None \/ exists x, In x ch /\ ~ In x M) ->
+    fold_left (nm_fold d M) ch acc <> None.
+  Proof.
+    induction ch as [|x ch IH]; intros acc H; cbn [fold_left].
+    - destruct H as [H | [x [[] _]]]. exact H.
+    - apply IH. unfold nm_fold. destruct (kmem x M) eqn:E.
+      + destruct H as [H | [y [[<- | Hy] Hn]]]; [left; exact H | | right; exists y; auto].
+        exfalso. apply Hn. apply kmem_In. exact E.
+      + left. discriminate.
+  Qed.
+
+  Lemma nm_reduce_fresh M l r : fresh M l -> fresh M r -> fresh M (nm_reduce l r).
+  Proof.
+    intros Hl Hr. unfold nm_reduce. destruct l as [[dl xl]|], r as [[dr xr]|]; try assumption.
+    destruct (dl >? dr)%Z; assumption.
+  Qed.
+
+  Lemma nm_reduce_some l r : l <> None \/ r <> None -> nm_reduce l r <> None.
+  Proof.
+    unfold nm_reduce. destruct l as [[dl xl]|], r as [[dr xr]|]; intros [H | H]; try congruence;
+      destruct (dl >? dr)%Z; discriminate.
+  Qed.
+
+  Lemma fold_reduce_fresh M : forall rs acc, (forall r, In r rs -> fresh M r) -> fresh M acc ->
+    fresh M (fold_left nm_reduce rs acc).
+  Proof.
+    induction rs as [|r rs IH]; intros acc Hrs Ha; cbn [fold_left]; [exact Ha|].
+    apply IH; [intros r' Hr'; apply Hrs; right; exact Hr'|]. apply nm_reduce_fresh; [exact Ha | apply Hrs; left; reflexivity].
+  Qed.
+
+  Lemma fold_reduce_some : forall rs acc, (acc <> None \/ exists r, In r rs /\ r <> None) ->
+    fold_left nm_reduce rs acc <> None.
+  Proof.
+    induction rs as [|r rs IH]; intros acc H; cbn [fold_left].
+    - destruct H as [H | [r [[] _]]]. exact H.
+    - apply IH. destruct H as [H | [r' [[<- | Hr'] Hn]]].
+      + left. apply nm_reduce_some. left. exact H.
+      + left. apply nm_reduce_some. right. exact Hn.
+      + right. exists r'. auto.
+  Qed.
+
+  Lemma next_medoid_some M : (exists p, In p data /\ ~ In p M) ->
+    exists m, next_medoid d chunks data M = Some m /\ In m data /\ ~ In m M.
+  Proof.
+    intros [p [Hp Hn]]. unfold next_medoid.
+    set (rs := map (fun ch => fold_left (nm_fold d M) ch None) (chunks data)).
+    assert (Hfresh : fresh M (fold_left nm_reduce rs None)).
+    { apply fold_reduce_fresh; [|exact I]. intros r Hr. unfold rs in Hr. apply in_map_iff in Hr.
+      destruct Hr as [ch [<- Hch]]. apply fold_nm_fresh; [|exact I].
+      intros x Hx. rewrite <- chunks_ok. apply in_concat. exists ch. auto. }
+    assert (Hsome : fold_left nm_reduce rs None <> None).
+    { apply fold_reduce_some. right. rewrite <- chunks_ok in Hp. apply in_concat in Hp. destruct Hp as [ch [Hch Hpc]].
+      exists (fold_left (nm_fold d M) ch None). split; [unfold rs; apply (in_map (fun ch0 => fold_left (nm_fold d M) ch0 None)); exact Hch|].
+      apply fold_nm_some. right. exists p. auto. }
+    destruct (fold_left nm_reduce rs None) as [[dd x]|]; [|congruence].
+    exists x. cbn [option_map snd]. split; [reflexivity | exact Hfresh].
+  Qed.
+
+  Lemma exists_unused M : NoDup M -> length M < length (nodup Nat.eq_dec data) -> exists p, In p data /\ ~ In p M.
+  Proof.
+    intros ND Hlt. destruct (existsb (fun p => negb (kmem p M)) data) eqn:E.
+    - apply existsb_exists in E. destruct E as [p [Hp Hk]]. exists p. split; [exact Hp|].
+      apply negb_true_iff in Hk. rewrite <- kmem_In. congruence.
+    - exfalso. assert (Hall : incl (nodup Nat.eq_dec data) M).
+      { intros x Hx. apply nodup_In in Hx. destruct (kmem x M) eqn:Ek; [apply kmem_In; exact Ek|].
+        assert (Hc : existsb (fun p => negb (kmem p M)) data = true).
+        { apply existsb_exists. exists x. split; [exact Hx | rewrite Ek; reflexivity]. }
+        congruence. }
+      pose proof (NoDup_incl_length (NoDup_nodup Nat.eq_dec data) Hall). lia.
+  Qed.
+
+  Lemma more_medoids_some k : k <= length (nodup Nat.eq_dec data) ->
+    forall fuel M, NoDup M -> incl M data -> exists M', more_medoids d chunks fuel k data M = Some M'.
+  Proof.
+    intros Hk. induction fuel as [|f IH]; intros M ND Hincl; cbn [more_medoids]; [eexists; reflexivity|].
+    destruct (length M <? k) eqn:E; [|eexists; reflexivity]. apply Nat.ltb_lt in E.
+    destruct (next_medoid_some M) as [m [Hm [Hin Hnew]]]; [apply exists_unused; [exact ND | lia]|].
+    rewrite Hm. apply IH.
+    - apply NoDup_app_intro; [exact ND | constructor; [intros [] | constructor] |].
+      intros x Hx [<- | []]. exact (Hnew Hx).
+    - intros x Hx. apply in_app_or in Hx. destruct Hx as [Hx | [<- | []]]; auto.
+  Qed.
+
+  Theorem initialize_medoids_some k : data <> [] -> k <= length (nodup Nat.eq_dec data) ->
+    exists M, initialize_medoids d chunks k data = Some M.
+  Proof.
+    intros Hd Hk. unfold initialize_medoids.
+    destruct (argmin_some (fun a => sumd d a data) data Hd) as [first Hf]. rewrite Hf.
+    apply argmin_spec in Hf. destruct Hf as [Hf _].
+    apply more_medoids_some; [exact Hk | constructor; [intros [] | constructor] |].
+    intros x [<- | []]. exact Hf.
+  Qed.
+End Init.
+
+(* the full k-medoids contract *)
+Theorem create_kmedoids_contract d chunks ord data k :
+  (forall l, Permutation (ord l) l) -> concat (chunks data) = data ->
+  data <> [] -> k <= length (nodup Nat.eq_dec data) ->
+  km_partition data (create_kmedoids d chunks ord data k) /\ km_nearest d (create_kmedoids d chunks ord data k).
+Proof.
+  intros Hord Hch Hd Hk. split; [|apply create_kmedoids_nearest].
+  destruct (initialize_medoids_some d chunks data Hch k Hd Hk) as [M HM].
+  eapply create_kmedoids_partition; eauto.
+Qed.
+
+Lemma halves_concat l : concat (halves l) = l.
+Proof.
+  unfold halves. destruct l as [|a [|b r]]; [reflexivity | reflexivity |].
+  cbn [concat]. rewrite app_nil_r. apply firstn_skipn.
+Qed.
+
+(* ------------------------------------------------------------------ witnesses of the two findings, for every distance / hash order *)
+Lemma kmedoids_k_exceeds d ord p :
+  create_kmedoids d halves ord [p] 2 = [] /\ ~ Permutation (flat_map snd (create_kmedoids d halves ord [p] 2)) [p].
+Proof.
+  assert (E : create_kmedoids d halves ord [p] 2 = []).
+  { assert (N : next_medoid d halves [p] [p] = None).
+    { unfold next_medoid, nm_fold, kmem. cbn [halves map fold_left existsb]. rewrite Nat.eqb_refl. reflexivity. }
+    unfold create_kmedoids, calculate, initialize_medoids.
+    cbn [argmin min_by more_medoids length Nat.ltb Nat.leb]. rewrite N. reflexivity. }
+  split; [exact E|]. rewrite E. cbn. intros H. apply Permutation_nil in H. discriminate.
+Qed.
+
+Lemma hkmedoids_single_point_panics d chunks ord p n :
+  create_hierarchical_kmedoids d chunks ord [p] (S n) = HPanic.
+Proof. reflexivity. Qed.
